@@ -41,6 +41,10 @@ func (c15) Gen(r *rand.Rand, tier string, run int) *core.Case {
 	if c.Net.ReadMode == "tiny" {
 		c.Net.ReadMode = "random"
 	}
+	if r.IntN(4) == 0 {
+		c.Params["broken"] = 1
+		c.Params["break_after"] = r.IntN(120)
+	}
 	// sub-batches: purely sequential conformance (one client, longer
 	// sequences, compared step by step) and concurrent histories
 	if r.IntN(4) == 0 {
@@ -140,6 +144,32 @@ func (c15) Run(c *core.Case, env *core.Env) {
 			return nil, err
 		}
 		return services.MakeServiceDirectory(nil, bus.NewProxy(cl, meta, 1, 1)), nil
+	}
+	if c.P("broken", 0) == 1 {
+		// one more subscriber of the directory's signals, registered first,
+		// which becomes unreachable at some moment: registrations, their
+		// answers and what the other subscriber sees must not depend on it
+		vconn := len(env.NW.Conns())
+		victim, err := mk("victim")
+		if err != nil {
+			env.Violate("setup/connect", "%v", err)
+			return
+		}
+		_, va, e1 := victim.SubscribeServiceAdded()
+		_, vr, e2 := victim.SubscribeServiceRemoved()
+		if e1 != nil || e2 != nil {
+			env.Violate("setup/subscribe", "%v %v", e1, e2)
+			return
+		}
+		go func() {
+			for range va {
+			}
+		}()
+		go func() {
+			for range vr {
+			}
+		}()
+		BreakWritesLater(env, env.NW.Conns()[vconn], c.P("break_after", 0))
 	}
 	// a subscriber for the whole run
 	st.subPair = len(env.NW.Conns())
